@@ -14,6 +14,18 @@ CHECKS = {
    "explicit-state BFS to closure over the real RWMutex (private-state key) vs POSIX one-byte model; exhaustive blocking-variant matrix on the synctest fake clock",
    "Every operation from every reachable state of one real RWMutex with four guards is executed and compared with the reader/writer rules (20 states x 20 operations, closure reached); blocking Lock/RLock are decided for every holder/waiter/event/timing combination on a fake clock. Complete for the stated alphabet, which is the property's own quantifier.",
    "Trusted: Go runtime, testing/synctest fake clock. Data races are only covered by the auxiliary free-running -race pass.", "§4 C12"),
+ "C01": ("model_checking", "E1-histories",
+   "explicit-state BFS over event histories on a real 3-node cluster (replay-from-scratch successors, canonical state keys incl. private caches); reader-through-page-cache oracle at every state",
+   "Every history up to the depth bound over {7 transaction shapes, checkpoint, partition/heal/cut, restarts, retention, demotion, handoff} from five start states (incl. lagging replica and fork-ahead-by-one preludes, both journal modes, LZ4) is executed on real stores; at every state every node's reader (position + all pages through a page cache only LiteFS invalidations refresh) must equal the primary's recorded image at that position, connected replicas must converge on the fake clock, no node may Exit, and the C04/C09/C15 monitors run.",
+   "Kernel, SQLite and the socket are simulated; lfshttp client/server code is real. Interleavings inside a burst are not enumerated here. Fake-clock bounds: 70 s single primary, 40 s convergence.", "§4 C01"),
+ "C04": ("model_checking", "E1-histories",
+   "from-scratch CRC64 monitor evaluated at every state of an explicit-state BFS over mixed histories (commits in both modes, checkpoints, recover, replication, restarts, imports, drops, failover)",
+   "The independent checksum (stdlib crc64 over database file + committed WAL frames per an independent WAL scanner) is compared with DB.Pos() on every node and database at every state of a dedicated BFS over mixed histories from sizes 1, 256 and 513 pages; the same monitor also runs in the C01/C02/C03/C15 searches.",
+   "Same lab as C01. Lock-page geometry not enumerated.", "§4 C04"),
+ "C15": ("model_checking", "E1-histories",
+   "explicit-state BFS over create/write/to-WAL/drop/re-create histories with connected, lagging, restarting and late-joining replicas",
+   "After every event: a drop advances the TXID by one with exactly the empty checksum; database, journal, wal and shm are gone on the primary and on every connected replica (also after restart or late join); directory listings hide the name on every node; re-creation continues the TXID sequence and replicates; chain monitor across the tombstone.",
+   "Same lab as C01; crash points inside the drop belong to C05.", "§4 C15"),
  "C02": ("model_checking", "E1-programs",
    "exhaustive enumeration of rollback-journal pager programs executed on the real store through the FUSE handlers; every LTX decoded and applied to a reference image",
    "All single-transaction pager programs of the enumerated shape space (modified set x new size x spill points x sync mode x finalisation x outcome) from seven start sizes straddling the 256-page checksum blocks, and all chains of two (thorough: three) over a core of shapes, are executed; after each the position delta, the decoded LTX applied to the previous reference image, pre/post checksums, the tx event, the -pos file, the image read back through a page cache and the C04/C09 monitors are checked.",
